@@ -1,5 +1,7 @@
 //! tarpc-verif <PROPERTY> <quick|thorough> [--replay <file>]
 mod common;
+mod e2e;
+mod misc;
 mod mock;
 mod props;
 mod sclient;
